@@ -335,6 +335,68 @@ func min(a, b int) int {
 	return b
 }
 
+// c05Mutate changes v in place into a different value of the same type.
+func c05Mutate(r *h.Rand, v *tref.Val) {
+	var leaves []*tref.Val
+	var conts []*tref.Val
+	tref.Walk(v, func(n *tref.Val, d int) {
+		switch n.T {
+		case tref.STRUCT:
+		case tref.LIST, tref.SET, tref.MAP:
+			if len(n.L) > 0 && n.T != tref.SET {
+				conts = append(conts, n)
+			}
+		default:
+			leaves = append(leaves, n)
+		}
+	})
+	if len(conts) > 0 && r.Chance(40) {
+		n := conts[r.Intn(len(conts))]
+		n.L = n.L[:len(n.L)-1]
+		if n.T == tref.MAP {
+			n.K = n.K[:len(n.K)-1]
+		}
+		return
+	}
+	// only leaves that are not map keys / set elements (uniqueness) are touched: pick from struct fields and list/map values
+	var safe []*tref.Val
+	tref.Walk(v, func(n *tref.Val, d int) {
+		switch n.T {
+		case tref.STRUCT:
+			for _, f := range n.Fs {
+				if !isContainer(f.V.T) {
+					safe = append(safe, f.V)
+				}
+			}
+		case tref.LIST, tref.MAP:
+			for _, e := range n.L {
+				if !isContainer(e.T) {
+					safe = append(safe, e)
+				}
+			}
+		}
+	})
+	if len(safe) == 0 {
+		return
+	}
+	n := safe[r.Intn(len(safe))]
+	switch n.T {
+	case tref.BOOL:
+		n.B = !n.B
+	case tref.BYTE:
+		n.I = (n.I + 1) & 0x7f
+	case tref.I16, tref.I32, tref.I64:
+		n.I ^= 1
+	case tref.DOUBLE:
+		n.F = n.F/2 + 1
+		if n.F != n.F {
+			n.F = 1
+		}
+	case tref.STRING:
+		n.S = append(append([]byte{}, n.S...), 'x')
+	}
+}
+
 // c05Edits applies a sequence of SetField/SetByStr/SetByInt (overwrite, append, clear) on PathNodes of a
 // recursively loaded tree and compares Marshal with the model.
 func c05Edits(cs *h.Case, tree *generic.PathNode, v *tref.Val, o *generic.Options, reuse string) bool {
@@ -464,6 +526,11 @@ func c05Edits(cs *h.Case, tree *generic.PathNode, v *tref.Val, o *generic.Option
 					old = cont.L[0]
 				}
 				nv = old.Clone()
+				if cs.R.Chance(70) {
+					// a different value of the same type: children loaded from the old value must not survive
+					c05Mutate(cs.R, nv)
+					cs.Cover("edit_container_replaced_by_different_value")
+				}
 			} else {
 				nv = gen.GenVal(cs.R, &gen.Type{T: wantT}, gen.ValCfg{NonFinite: true, MaxStr: 40}, 2)
 			}
